@@ -597,8 +597,9 @@ func run(tier string, sh *vkit.Shard, p *vkit.Part) {
 									}
 								}
 								o := segFor()
-								if !thorough {
-									o.AllSingleMax = 400 // longer wires: structural cuts (all header/mask bytes, +-2 around every frame boundary)
+								o.AllSingleMax = 400 // longer wires: structural cuts (all header/mask bytes, +-2 around every frame boundary)
+								if thorough {
+									o.AllSingleMax = 2100
 								}
 								runBase(&caseSpec{Family: "fragments", L: L, Server: server, Policy: pol, Handlers: h, Frags: fr}, p, o)
 							}
@@ -733,7 +734,7 @@ func main() {
 			"over-limit => Parse error or closed conn, a close frame with status 1009 on the wire, and no OnMessage for that message",
 			"read limit: cached unparsed input <= ReadLimit + the last read's size at every moment, and a frame larger than that is refused",
 			"'refused on send' is read as WriteMessage/WriteClose returning ErrControlMessageTooBig and writing nothing; the raw WriteFrame is not judged",
-			"quick tier: fragment tuples run with policies exact and pooled (stale only differs in buffer content) and every single cut only for wires <= 400 B (structural cuts otherwise); thorough adds stale and all single cuts up to 16 KiB wires",
+			"quick tier: fragment tuples run with policies exact and pooled (stale only differs in buffer content) and every single cut only for wires <= 400 B (structural cuts otherwise); thorough adds stale, all single cuts up to 16 KiB wires for single frames and compressed messages and up to 2100 B for fragment tuples",
 		},
 		Seq: run, ReplaySeq: replay, MinNonTrivial: 1000,
 	})
